@@ -382,7 +382,7 @@ def rule_O1(ctx, R):
             if not f.get("reachable"):
                 continue      # a crate-private accessor gives nothing to a client
             n += 1
-            if R.roles(f) & {"ACQ-GUARD", "ACQ-SCOPED"}:
+            if R.roles(f) & {"ACQ-GUARD", "ACQ-SCOPED", "ACQ-KEYED"}:
                 res.ok(f["path"] + " (acquisition)")
                 continue
             recv_shared = f["inputs"] and f["inputs"][0]["k"] == "ref" and not f["inputs"][0]["mut"] and \
@@ -427,7 +427,7 @@ def rule_O1(ctx, R):
         if imp and ((imp["self_ty"]["k"] == "adt" and imp["self_ty"]["path"] == P) or
                     (imp["self_ty"]["k"] == "ref" and imp["self_ty"]["ty"].get("path") == P)):
             continue     # judged above
-        if R.roles(f) & {"ACQ-GUARD", "ACQ-SCOPED"}:
+        if R.roles(f) & {"ACQ-GUARD", "ACQ-SCOPED", "ACQ-KEYED"}:
             continue
         if (f.get("trait_item") or "").startswith(("std::fmt::", "lockable::")):
             continue
